@@ -1,0 +1,233 @@
+//! Verification hooks. The whole file is compiled only with `--cfg rce_verif`;
+//! with the flag off nothing in here exists and no call site is compiled.
+//!
+//! Everything is a no-op until a harness arms it (in-process switches) or the
+//! environment variable `RCE_VERIF_SCHED=<dir>` is set (schedule points).
+#![allow(dead_code, clippy::all, clippy::pedantic, clippy::nursery)]
+
+use std::collections::HashMap;
+use std::io::Write;
+use std::path::PathBuf;
+use std::sync::atomic::{AtomicBool, AtomicU64, Ordering};
+use std::sync::{Mutex, OnceLock};
+use std::time::{Duration, Instant};
+
+use crate::board::transposition_table::{TTEntry, TRANSPOSITION_TABLE};
+
+// ---------------------------------------------------------------------------
+// Log capture
+// ---------------------------------------------------------------------------
+
+static LOG_ARMED: AtomicBool = AtomicBool::new(false);
+static LOG: Mutex<Vec<String>> = Mutex::new(Vec::new());
+
+/// Called from `Logger::log`; records the line when armed and hands the message on.
+pub fn on_log(message: impl Into<String>) -> impl Into<String> {
+    let line: String = message.into();
+    if LOG_ARMED.load(Ordering::Relaxed) {
+        LOG.lock().unwrap_or_else(|e| e.into_inner()).push(line.clone());
+    }
+    line
+}
+
+pub fn log_arm(on: bool) {
+    LOG_ARMED.store(on, Ordering::Relaxed);
+}
+
+pub fn log_take() -> Vec<String> {
+    std::mem::take(&mut *LOG.lock().unwrap_or_else(|e| e.into_inner()))
+}
+
+// ---------------------------------------------------------------------------
+// Cache observer and cache switch
+// ---------------------------------------------------------------------------
+
+#[derive(Clone, Debug, PartialEq, Eq)]
+pub struct TtWrite {
+    /// 0 = root, 1 = inner cut-off (lower bound), 2 = inner end of move loop
+    pub site: u8,
+    pub key: u64,
+    pub entry: TTEntry,
+    pub nodes: u64,
+    pub node_budget: Option<u64>,
+    pub running: bool,
+    pub clock_fired: bool,
+}
+
+static TT_OBSERVE: AtomicBool = AtomicBool::new(false);
+static TT_WRITES: Mutex<Vec<TtWrite>> = Mutex::new(Vec::new());
+static TT_NEUTRAL: AtomicBool = AtomicBool::new(false);
+
+pub fn on_tt_insert(
+    site: u8,
+    key: u64,
+    entry: &TTEntry,
+    nodes: u64,
+    node_budget: Option<u64>,
+    running: bool,
+) {
+    if TT_OBSERVE.load(Ordering::Relaxed) {
+        TT_WRITES
+            .lock()
+            .unwrap_or_else(|e| e.into_inner())
+            .push(TtWrite {
+                site,
+                key,
+                entry: *entry,
+                nodes,
+                node_budget,
+                running,
+                clock_fired: CLOCK_FIRED.load(Ordering::Relaxed),
+            });
+    }
+}
+
+pub fn tt_observe(on: bool) {
+    TT_OBSERVE.store(on, Ordering::Relaxed);
+}
+
+pub fn tt_take_writes() -> Vec<TtWrite> {
+    std::mem::take(&mut *TT_WRITES.lock().unwrap_or_else(|e| e.into_inner()))
+}
+
+/// When switched on, the cache is emptied before every probe of the inner search,
+/// which makes every iteration a pure tree search.
+pub fn tt_set_neutral(on: bool) {
+    TT_NEUTRAL.store(on, Ordering::Relaxed);
+}
+
+pub fn tt_neutralise() {
+    if TT_NEUTRAL.load(Ordering::Relaxed) {
+        tt_clear();
+    }
+}
+
+pub fn tt_clear() {
+    TRANSPOSITION_TABLE
+        .write()
+        .unwrap_or_else(|e| e.into_inner())
+        .clear();
+}
+
+// ---------------------------------------------------------------------------
+// Interruption injectors (deterministic stand-ins for `stop` and for the clock)
+// ---------------------------------------------------------------------------
+
+static RUNNING_CALLS: AtomicU64 = AtomicU64::new(0);
+/// 0 = disarmed; otherwise the flag is cleared at the k-th `is_running` call
+static STOP_AT: AtomicU64 = AtomicU64::new(0);
+
+pub fn on_is_running(flag: &AtomicBool) {
+    let n = RUNNING_CALLS.fetch_add(1, Ordering::Relaxed) + 1;
+    if n == STOP_AT.load(Ordering::Relaxed) {
+        flag.store(false, Ordering::Relaxed);
+    }
+}
+
+pub fn stop_at(k: u64) {
+    RUNNING_CALLS.store(0, Ordering::Relaxed);
+    STOP_AT.store(k, Ordering::Relaxed);
+}
+
+pub fn running_calls() -> u64 {
+    RUNNING_CALLS.load(Ordering::Relaxed)
+}
+
+static CLOCK_VIRTUAL: AtomicBool = AtomicBool::new(false);
+static CLOCK_CALLS: AtomicU64 = AtomicU64::new(0);
+/// 0 = time never passes; otherwise all limits expire at the k-th limit check
+static CLOCK_FIRE_AT: AtomicU64 = AtomicU64::new(0);
+static CLOCK_FIRED: AtomicBool = AtomicBool::new(false);
+
+fn far_past() -> Instant {
+    let now = Instant::now();
+    for secs in [86_400u64, 3_600, 600, 60, 10, 1] {
+        if let Some(t) = now.checked_sub(Duration::from_secs(secs)) {
+            return t;
+        }
+    }
+    now
+}
+
+/// Called at the top of `limits_exceeded`; with the virtual clock armed the search
+/// sees zero elapsed time until the k-th check and a huge elapsed time from then on.
+pub fn virtual_start(start: Instant) -> Instant {
+    if !CLOCK_VIRTUAL.load(Ordering::Relaxed) {
+        return start;
+    }
+    let n = CLOCK_CALLS.fetch_add(1, Ordering::Relaxed) + 1;
+    let k = CLOCK_FIRE_AT.load(Ordering::Relaxed);
+    if k != 0 && n >= k {
+        CLOCK_FIRED.store(true, Ordering::Relaxed);
+        far_past()
+    } else {
+        Instant::now()
+    }
+}
+
+pub fn clock_virtual(on: bool, fire_at: u64) {
+    CLOCK_VIRTUAL.store(on, Ordering::Relaxed);
+    CLOCK_CALLS.store(0, Ordering::Relaxed);
+    CLOCK_FIRE_AT.store(fire_at, Ordering::Relaxed);
+    CLOCK_FIRED.store(false, Ordering::Relaxed);
+}
+
+pub fn clock_calls() -> u64 {
+    CLOCK_CALLS.load(Ordering::Relaxed)
+}
+
+pub fn clock_fired() -> bool {
+    CLOCK_FIRED.load(Ordering::Relaxed)
+}
+
+// ---------------------------------------------------------------------------
+// Schedule points (process level): blocking hand-shake through a directory
+// ---------------------------------------------------------------------------
+
+static SCHED_DIR: OnceLock<Option<PathBuf>> = OnceLock::new();
+static POINT_COUNTS: Mutex<Option<HashMap<String, u64>>> = Mutex::new(None);
+
+fn sched_dir() -> Option<&'static PathBuf> {
+    SCHED_DIR
+        .get_or_init(|| std::env::var_os("RCE_VERIF_SCHED").map(PathBuf::from))
+        .as_ref()
+}
+
+fn append_event(dir: &PathBuf, line: &str) {
+    if let Ok(mut f) = std::fs::OpenOptions::new()
+        .create(true)
+        .append(true)
+        .open(dir.join("events"))
+    {
+        let _ = f.write_all(format!("{line}\n").as_bytes());
+    }
+}
+
+/// A labelled schedule point. Without `RCE_VERIF_SCHED` it does nothing. With it, the
+/// arrival is appended to `<dir>/events` as `<label> <n>`; if `<dir>/hold.<label>`
+/// exists the calling thread then waits until `<dir>/go.<label>.<n>` appears.
+pub fn point(label: &str) {
+    let Some(dir) = sched_dir() else {
+        return;
+    };
+    let n = {
+        let mut guard = POINT_COUNTS.lock().unwrap_or_else(|e| e.into_inner());
+        let map = guard.get_or_insert_with(HashMap::new);
+        let c = map.entry(label.to_string()).or_insert(0);
+        *c += 1;
+        *c
+    };
+    append_event(dir, &format!("{label} {n}"));
+    if dir.join(format!("hold.{label}")).exists() {
+        let go = dir.join(format!("go.{label}.{n}"));
+        let began = Instant::now();
+        while !go.exists() {
+            if began.elapsed() > Duration::from_secs(120) {
+                append_event(dir, &format!("timeout {label} {n}"));
+                return;
+            }
+            std::thread::sleep(Duration::from_micros(200));
+        }
+        append_event(dir, &format!("resumed {label} {n}"));
+    }
+}
